@@ -252,6 +252,12 @@ func Run(bh Behaviour, seed int64) ([]Line, error) {
 				pp["L"] = lx * K
 				ln.P = pp
 			}
+			skip, _ := op["skip"].(bool)
+			op["skip"] = skip
+			if skip {
+				// the caller asks for the result without having it stored
+				extra = append(extra, nodeenrollment.WithSkipStorage(true))
+			}
 			if fault != "none" {
 				w.Rec.Fail = world.FaultGeneric
 				w.Rec.FailType = "RootCertificates"
@@ -281,7 +287,9 @@ func Run(bh Behaviour, seed int64) ([]Line, error) {
 				r.certFlags(ret.Current, ln.Flags, "cur")
 				r.certFlags(ret.Next, ln.Flags, "next")
 				// what is stored must load with the same wrapper and carry usable keys
-				if st, err := types.LoadRootCertificates(w.Ctx, w.Inner, w.StorageOpts()...); err != nil {
+				if skip {
+					// nothing is stored by design
+				} else if st, err := types.LoadRootCertificates(w.Ctx, w.Inner, w.StorageOpts()...); err != nil {
 					ln.Flags["reload"] = false
 				} else {
 					ln.Flags["reload"] = true
